@@ -15,6 +15,11 @@ NOT_APPLICABLE = []
 
 def build():
     checks = []
+    na = list(NOT_APPLICABLE)
+    for l in open(os.path.join(VERIF, "properties.jsonl")):
+        pid = json.loads(l)["id"]
+        if pid not in CHECKS and not any(x["property_id"] == pid for x in na):
+            na.append({"property_id": pid, "reason": "check not built yet at this commit (the TLA+ technique applies; design in DESIGN.md section 4) - not claimed until its check exists"})
     for pid, c in sorted(CHECKS.items()):
         checks.append({
             "property_id": pid,
@@ -36,7 +41,7 @@ def build():
                      "kind_free_text": "explicit TLA+ specifications checked with TLC, bound to the code by TLC trace validation of recorded implementation graphs/histories and by replay of TLC-generated behaviours"}],
         "checks": checks,
         "notes": "See DESIGN.md. known_findings.json lists repaired (fixed:) and open findings.",
-        "not_applicable": NOT_APPLICABLE,
+        "not_applicable": na,
     }
     with open(os.path.join(VERIF, "MANIFEST.json"), "w") as f:
         json.dump(m, f, indent=1)
